@@ -41,7 +41,7 @@ def report(chk, kind, **kw):
     case = kw.get('case')
     part = 'schedule' if isinstance(case, dict) and 'schedule' in case else 'other'
     pred = kw.get('predicate') or ''
-    part += ':' + ('wrong-data' if 'different from' in pred else 'raised' if ' raised ' in pred else
+    part += ':' + ('wrong-data' if 'different from' in pred else 'lock-not-shared' if 'but not the lock' in pred else 'raised' if ' raised ' in pred else
                    'unlocked-call' if 'without holding' in pred else 'other')
     cnt = chk.extra.setdefault('violations_by_kind', {})
     key = f'{kind}/{part}'
@@ -106,9 +106,9 @@ class Recorder:
 class WLock:
     """Recording wrapper around a real RLock.  null=True: no lock at all (canary)."""
 
-    def __init__(self, rec, null=False):
+    def __init__(self, rec, null=False, real=None):
         self.rec = rec
-        self.real = threading.RLock()
+        self.real = real if real is not None else threading.RLock()
         self.null = null
         self.owner = None
         self.depth = 0
@@ -419,10 +419,10 @@ class Scenario:
     def __init__(self, fs, threads, kind='handle', mmap=None, nolock=False, p0=3, name=''):
         self.fs, self.threads, self.kind, self.nolock, self.p0, self.name = fs, threads, kind, nolock, p0, name
         self.mmap = {'orig': True, 'copy': True, 'copy2': True}
-        if kind != 'handle':
-            self.mmap = {'orig': False, 'copy': False, 'copy2': False}
         if mmap:
             self.mmap.update(mmap)
+        if kind != 'handle':
+            self.mmap = {'orig': False, 'copy': False, 'copy2': False}
 
     def desc(self):
         return {'file': self.fs.desc(), 'kind': self.kind, 'mmap': self.mmap, 'nolock': self.nolock, 'p0': self.p0,
@@ -465,18 +465,53 @@ class Scenario:
             opener = orig._opener
             self.fobj = WDelegate(opener.fobj, rec, self.wlock)
             opener.fobj = self.fobj
-            self.close = opener.close_if_mine
+            self.closers = [opener.close_if_mine]
+            self.close = lambda: [c() for c in self.closers]
         self.proxies = {'orig': orig}
-        if self.kind == 'handle':
+        used = {t['proxy'] for t in self.threads}
+        if self.kind == 'handle' or used - {'orig'}:
+            # copies are taken AFTER the original has done a read (kfo: after its opener exists)
             c = orig.copy()
             c._mmap = self.mmap['copy']
+            self._instrument(c, rec)
             c2 = c.copy()
             c2._mmap = self.mmap['copy2']
+            self._instrument(c2, rec)
             self.proxies.update(copy=c, copy2=c2)
             if self.nolock:                       # canary: every proxy without a lock
                 for p in self.proxies.values():
                     p._lock = self.wlock
         return self
+
+    def _instrument(self, p, rec):
+        """Wrap whatever lock / file object nibabel gave this proxy — WITHOUT changing what is
+        shared with what: a lock or file object that is already a wrapper stays as it is."""
+        if not isinstance(p._lock, WLock):
+            p._lock = WLock(rec, real=p._lock)
+        if self.kind != 'handle':
+            do_read(p, (0,) * len(self.fs.shape))      # its own first read (creates an opener if it has none)
+            op = p._opener
+            if not isinstance(op.fobj, WDelegate):
+                op.fobj = WDelegate(op.fobj, rec, p._lock)
+                self.closers.append(op.close_if_mine)
+
+    def handle_of(self, name):
+        p = self.proxies[name]
+        return self.fobj if self.kind == 'handle' else p._opener.fobj
+
+    def sharing(self):
+        """groups of threads by underlying file object, and pairs of proxies that share a file
+        object but not the lock"""
+        groups = {}
+        for i, t in enumerate(self.threads):
+            groups.setdefault(id(self.handle_of(t['proxy'])), []).append(i)
+        bad = []
+        names = sorted(self.proxies)
+        for a in names:
+            for b in names:
+                if a < b and self.handle_of(a) is self.handle_of(b) and self.proxies[a]._lock is not self.proxies[b]._lock:
+                    bad.append((a, b))
+        return list(groups.values()), bad
 
     def model_requests(self, probe):
         """[(thread, [(line, outer)...])]"""
@@ -512,8 +547,17 @@ class Runner:
         n = len(sc.threads)
         rec.reset(n, scheduled=True)
         sc.build(rec, self.workdir)
-        sc.fobj.seek(sc.p0)
-        rec.tokens[None].clear()
+        seen_h = []
+        for name in sorted(sc.proxies):
+            h = sc.handle_of(name)
+            if not any(h is x for x in seen_h):
+                seen_h.append(h)
+                h.seek(sc.p0)
+        groups, bad_sharing = sc.sharing()
+        for k_ in (None,):
+            rec.tokens[k_].clear()
+            rec.unheld[k_].clear()
+            rec.data[k_].clear()
         results = [None] * n
         errors = [None] * n
 
@@ -597,12 +641,13 @@ class Runner:
             endpos = None
             if sc.kind == 'handle':
                 endpos = io.BytesIO.tell(sc.fobj)
-            lock_free = sc.wlock.depth == 0
+            lock_free = all(p._lock.depth == 0 for p in sc.proxies.values() if isinstance(p._lock, WLock))
         finally:
             sc.close()
         return {'ok': ok, 'trace': trace, 'eff': eff, 'results': results, 'errors': errors,
                 'tokens': [list(rec.tokens[i]) for i in range(n)], 'unheld': [list(rec.unheld[i]) for i in range(n)],
-                'data': [list(rec.data[i]) for i in range(n)], 'endpos': endpos, 'lock_free': lock_free}
+                'data': [list(rec.data[i]) for i in range(n)], 'endpos': endpos, 'lock_free': lock_free,
+                'groups': groups, 'bad_sharing': bad_sharing}
 
 
 # ---- schedule policies
@@ -694,6 +739,10 @@ def core_scenarios():
         Scenario(B, [dict(proxy='orig', reads=[M2, S1b]), dict(proxy='copy', reads=['W', M2b]),
                      dict(proxy='copy2', reads=[S1, (Ellipsis, 0)], outer=True)], mmap={'copy': False},
                  name='3 threads x 2 reads, one holding the RLock across both'),
+        Scenario(A, [dict(proxy='orig', reads=[M2, 'W']), dict(proxy='copy', reads=[S1, M2b])], kind='kfo',
+                 name='keep_file_open=True path proxy and its copy() taken after a first read'),
+        Scenario(A, [dict(proxy='orig', reads=['W']), dict(proxy='copy', reads=[M2]), dict(proxy='copy2', reads=[S1b])],
+                 kind='kfo_gz', name='keep_file_open=True .gz path proxy, copy and copy of copy taken after reads'),
     ]
     return out
 
@@ -805,22 +854,34 @@ def evaluate(chk, sc, progs, wl_ok, single, run, mout, tag):
                 break
         if pred is None and not run['lock_free']:
             pred = 'lock still held after all threads finished'
-    # ---- correspondence with the model on the same schedule
+    if not sc.nolock and pred is None and run['bad_sharing']:
+        pred = ('proxies share one underlying file object but not the lock: ' +
+                ', '.join(f'{a}/{b}' for a, b in run['bad_sharing']))
+    elif not sc.nolock and run['bad_sharing'] and 'sharing' not in pred:
+        pred += '; proxies share one underlying file object but not the lock: ' + \
+                ', '.join(f'{a}/{b}' for a, b in run['bad_sharing'])
+    # ---- correspondence with the model on the same schedule: one model world per underlying
+    # file object (threads on other handles have the empty program there)
     dis = []
     eff, parts = impl_line(run, n)
-    if mout is None or not mout.startswith('ok '):
-        dis.append(('model-run', str(mout)[:120], ''))
-    else:
-        f = mout[3:].split(' | ')
+    for gi, members in enumerate(run['groups']):
+        mo = mout.get(gi) if isinstance(mout, dict) else None
+        if mo is None or not mo.startswith('ok '):
+            dis.append(('model-run', str(mo)[:120], ''))
+            continue
+        f = mo[3:].split(' | ')
         head = dict(x.split('=') for x in f[0].split())
-        if head['eff'] != eff:
-            dis.append(('blocked/effective pattern', head['eff'], eff))
-        for i in range(n):
+        pos_in = [j for j, t in enumerate(run['trace']) if t in members]
+        me = ''.join(head['eff'][j] for j in pos_in)
+        ie = ''.join(eff[j] for j in pos_in)
+        if me != ie:
+            dis.append(('blocked/effective pattern', me, ie))
+        for i in members:
             if f[1 + i] != parts[i]:
                 dis.append((f'thread {i} read records', f[1 + i][:160], parts[i][:160]))
         if head['owner'] != '-' or head['depth'] != '0':
             dis.append(('model lock not free at the end', f[0], ''))
-        if run['endpos'] is not None and str(run['endpos']) != head['pos']:
+        if run['endpos'] is not None and len(run['groups']) == 1 and str(run['endpos']) != head['pos']:
             dis.append(('final position', head['pos'], run['endpos']))
     for i in range(n):
         if join_progs(run['tokens'][i]) != progs[i]:
@@ -828,7 +889,7 @@ def evaluate(chk, sc, progs, wl_ok, single, run, mout, tag):
         if not sc.nolock and not wl_ok[i]:
             dis.append((f'thread {i} program not well-locked per model', progs[i][:160], ''))
     if pred:
-        report(chk, 'property_violation', case=case, predicate=pred, model_output=mout[:300] if mout else None,
+        report(chk, 'property_violation', case=case, predicate=pred, model_output=str(mout)[:300] if mout else None,
                       impl_output={'errors': run['errors'], 'tokens': [join_progs(t) for t in run['tokens']]},
                       theorem='C14_reads_correct')
     if dis:
@@ -847,9 +908,10 @@ def run(chk: Check):
     chk.rule = ('(a) single-threaded call sequences: exhaustive index families + random basic indices (ints, '
                 'steps of either sign, empty / out-of-range / full slices, Ellipsis, newaxis) on F/C-order arrays of '
                 '4 dtypes x {proxy, copy, copy of copy, keep_file_open plain, keep_file_open .gz} x mmap on/off x '
-                'caller-held lock; (b) gated scheduler: ALL schedules with <= 2 pre-emptions of the 7 fixed scenarios '
+                'caller-held lock; (b) gated scheduler: ALL schedules with <= 2 pre-emptions of the 10 fixed scenarios '
                 '(2-3 threads x 1-2 reads: multi-segment, single-segment, whole-array with and without the memmap '
-                'probe; same proxy, copy, copy of copy, re-entrant caller lock, keep_file_open plain and .gz) plus '
+                'probe; same proxy, copy, copy of copy, re-entrant caller lock, keep_file_open plain and .gz, and '
+                'keep_file_open path proxies with copy() / copy of copy taken AFTER a first read) plus '
                 'random schedules of random scenarios; a case is non-trivial when it performs at least one file '
                 'call; schedules are distinct by their recorded thread-id sequence, call sequences by '
                 '(file, variant, index)')
@@ -890,7 +952,7 @@ def run(chk: Check):
     files = [FileSpec((33, 3, 2), '<f8', 16), FileSpec((130, 3, 2), '<i2', 32, slope=2.0, inter=1.0, fill=3),
              FileSpec((2, 3, 33), '>f8', 8, order='C', fill=9), FileSpec((17, 2, 2, 2), '<c16', 0, fill=4)]
     rand_scs = []
-    for _ in range(chk.n(20, 160)):
+    for _ in range(chk.n(12, 160)):
         fs = rng.choice(files)
         nt = rng.choice([2, 2, 3])
         kind = rng.choice(['handle', 'handle', 'handle', 'kfo', 'kfo_gz'])
@@ -907,7 +969,7 @@ def run(chk: Check):
                 else:
                     ix = 'W'
                 reads.append(ix)
-            ths.append(dict(proxy='orig' if kind != 'handle' else rng.choice(['orig', 'copy', 'copy2']), reads=reads,
+            ths.append(dict(proxy=rng.choice(['orig', 'copy', 'copy2'] if kind == 'handle' else ['orig', 'orig', 'copy', 'copy2']), reads=reads,
                             outer=rng.random() < 0.2))
         rand_scs.append(Scenario(fs, ths, kind=kind, mmap={'orig': rng.random() < 0.5, 'copy': rng.random() < 0.5}
                                  if kind == 'handle' else None, p0=rng.randrange(0, 64), name='random'))
@@ -928,7 +990,7 @@ def run(chk: Check):
             pols = itertools.chain((policy_preempt(pre) for pre in it),
                                    (policy_quantum(q, f) for q in range(1, 8) for f in range(len(sc.threads))))
         else:
-            nrand = chk.n(40, 150)
+            nrand = chk.n(30, 150)
             pols = itertools.chain([policy_preempt({})],
                                    (policy_random(rng, rng.choice([0.0, 0.5, 0.8, 0.9])) for _ in range(nrand)))
         for pol in pols:
@@ -958,8 +1020,14 @@ def run(chk: Check):
     for j, (si, r) in enumerate(runs):
         sc = all_scs[si]
         sched = '[' + ','.join(str(t) for t in r['trace']) + ']'
-        lines.append(f"{j} run {hx(sc.fs.bytes)} {sc.p0} {sched} " + ' '.join(progs[si]))
-    mout = run_model(PROP, lines)
+        for gi, members in enumerate(r['groups']):
+            pg = [p if i in members else '-' for i, p in enumerate(progs[si])]
+            lines.append(f"{j}.{gi} run {hx(sc.fs.bytes)} {sc.p0} {sched} " + ' '.join(pg))
+    mout_all = run_model(PROP, lines)
+    mout = {}
+    for key, v in mout_all.items():
+        j, gi = key.split('.')
+        mout.setdefault(j, {})[int(gi)] = v
 
     mixing_seen = 0
     per_sc = {}
@@ -1165,7 +1233,7 @@ def part_a(chk, rec, probe):
                               theorem='correspondence C14/Model.v segs_prog/whole_prog <-> read_segments/array_from_file')
         if not o['value_ok'] and not o['err'] and (v in ('orig', 'orig_nommap', 'kfo', 'kfo_gz') or fs.order == 'F'):
             nv = chk.extra.setdefault('note_values', {'what': 'single-threaded read differs from NumPy indexing '
-                                                              '(shape of a zero-size whole-array read; C03 subject, not C14)',
+                                                              '(C03/C06 subject, not C14)',
                                                       'count': 0, 'first': case})
             nv['count'] += 1
 
@@ -1202,6 +1270,49 @@ def part_lock_kind(chk, workdir=None):
                         'and C14_programs_well_locked (outer_locked) assume threading.RLock'))
     if h.copy()._lock is not h._lock:
         bad.append(('copy shares lock', 'copy() of a proxy over an open handle does not share its lock'))
+    # copy() at every point of a history: whatever shares one OS-level file object shares the lock
+    gzp = os.path.join(workdir or chk.workdir, 'lockkind.dat.gz')
+    import gzip as _gz
+    with _gz.open(gzp, 'wb') as g:
+        g.write(fs.bytes)
+    for hname, mk in [('open file object', lambda: ArrayProxy(io.BytesIO(fs.bytes), fs.par(), mmap=False)),
+                      ('path keep_file_open=True', lambda: ArrayProxy(path, fs.par(), mmap=False, keep_file_open=True)),
+                      ('.gz path keep_file_open=True', lambda: ArrayProxy(gzp, fs.par(), mmap=False, keep_file_open=True)),
+                      ('.gz path keep_file_open=False', lambda: ArrayProxy(gzp, fs.par(), mmap=False, keep_file_open=False)),
+                      ('path keep_file_open=False', lambda: ArrayProxy(path, fs.par(), mmap=False, keep_file_open=False))]:
+        p0 = mk()
+        fam = {'original': p0, 'copy before any read': p0.copy()}
+        do_read(p0, (S(None), S(None, None, 2), 1))
+        fam['copy after a sliced read'] = p0.copy()
+        do_read(p0, 'W')
+        fam['copy after a whole read'] = p0.copy()
+        fam['copy of copy'] = fam['copy after a sliced read'].copy()
+        for q in list(fam.values()):
+            do_read(q, (S(None), 1, 0))
+        fam['copy of (copy before any read) after its read'] = fam['copy before any read'].copy()
+        do_read(fam['copy of (copy before any read) after its read'], 'W')
+
+        def os_file(q):
+            if q._has_fh():
+                return q.file_like
+            op = getattr(q, '_opener', None)
+            return None if op is None else op.fobj
+        names = list(fam)
+        for i, a in enumerate(names):
+            for b in names[i + 1:]:
+                fa, fb = os_file(fam[a]), os_file(fam[b])
+                if chk is not None:
+                    chk.count(key=('sharing', hname, a, b), tag='lock_sharing_pair')
+                if fa is not None and fa is fb and fam[a]._lock is not fam[b]._lock:
+                    bad.append((f'{hname}: {a} / {b}', f'{hname}: "{a}" and "{b}" use one underlying file object (one file '
+                                'position) but different locks — concurrent reads through them are not protected'))
+        for q in fam.values():
+            op = getattr(q, '_opener', None)
+            if op is not None:
+                try:
+                    op.close_if_mine()
+                except Exception:  # noqa
+                    pass
     if chk is not None:
         for name, pred in bad:
             report(chk, 'property_violation', case={'lock_kind': name}, predicate=pred, theorem='C14_programs_well_locked')
